@@ -6,6 +6,7 @@ package main
 import (
 	"fmt"
 	"math/big"
+	"mime/multipart"
 	"reflect"
 	"strings"
 
@@ -72,7 +73,8 @@ func gentries2() []gentry {
 		{"bigint", func() any { return gozod.BigInt() }, func() any { return gozod.BigInt() }, []any{big.NewInt(50), big.NewInt(5)}, big.NewInt(42)},
 		{"complex", func() any { return gozod.Complex128() }, func() any { return gozod.Complex128() }, []any{complex(1, 2), complex(0, 0)}, complex(3, 4)},
 		{"discriminatedunion", du, du, []any{map[string]any{"type": "a", "x": 50}, map[string]any{"type": "a", "x": 5}, map[string]any{"type": "zz"}, map[string]any{"type": "b"}}, map[string]any{"type": "b"}},
-		{"file", func() any { return gozod.File() }, func() any { return gozod.File() }, []any{"notafile"}, "notafile"},
+		{"file", func() any { return gozod.File().Min(3) }, func() any { return gozod.File() },
+			[]any{"notafile", &multipart.FileHeader{Filename: "a.txt", Size: 5}, &multipart.FileHeader{Filename: "tiny.txt", Size: 1}}, &multipart.FileHeader{Filename: "d.txt", Size: 9}},
 		{"function", func() any { return gozod.Function() }, func() any { return gozod.Function() }, []any{"notafunc", sampleFunc, &fnAny, func(int) string { return "" }}, sampleFunc},
 		{"never", func() any { return gozod.Never() }, func() any { return gozod.Never() }, []any{"x", 1}, "d"},
 		{"nil", func() any { return gozod.Nil() }, func() any { return gozod.Nil() }, []any{"x"}, "d"},
@@ -197,7 +199,7 @@ func runGen2(o *hx.Out, r *hx.Rng, rounds int, aim map[string]bool) {
 				reps = 12 // the entry-point table says this type's routing changed: many more schemas of it
 			}
 			for rep := 0; rep < reps; rep++ {
-				var schema any
+				var schema, base any
 				// "+ow": a container/primitive-level Overwrite(identity) on top (the checks' pointer pre-pass in
 				// validatePointer, and everything else that keys on "has an overwrite check", becomes reachable)
 				variant := hx.Pick(r, []string{"checked", "plain", "refined", "plain+ow", "checked+ow"})
@@ -211,6 +213,7 @@ func runGen2(o *hx.Out, r *hx.Rng, rounds int, aim map[string]bool) {
 							applied[0] = strings.TrimSuffix(variant, "+ow")
 						}
 					}
+					base = schema
 					if schema != nil {
 						schema, applied = applyRandomMods(r, e, schema, applied)
 					}
@@ -222,9 +225,9 @@ func runGen2(o *hx.Out, r *hx.Rng, rounds int, aim map[string]bool) {
 				// a promoted method (ZodEmail.Min -> *ZodString) leaves the family's own Go type: then the bare schema of
 				// the family is exercised in this round too, so that every type of the entry-point table is reached
 				// in every run
-				runOne(o, r, e, schema, applied, ei >= nOld || aimed || strings.HasSuffix(applied[0], "+ow"))
+				runOne(o, r, e, base, schema, applied, ei >= nOld || aimed || strings.HasSuffix(applied[0], "+ow"))
 				if bare := e.plain(); goTypeOf(schema) != goTypeOf(bare) {
-					runOne(o, r, e, bare, []string{"plain"}, true)
+					runOne(o, r, e, bare, bare, []string{"plain"}, true)
 				}
 			}
 		}
@@ -232,7 +235,7 @@ func runGen2(o *hx.Out, r *hx.Rng, rounds int, aim map[string]bool) {
 }
 
 // runOne: the six entry points of one schema on its well-typed samples (when asked) and on two ill-typed inputs.
-func runOne(o *hx.Out, r *hx.Rng, e *gentry, schema any, applied []string, wellTyped bool) {
+func runOne(o *hx.Out, r *hx.Rng, e *gentry, base, schema any, applied []string, wellTyped bool) {
 	{
 		{
 			{
@@ -257,13 +260,43 @@ func runOne(o *hx.Out, r *hx.Rng, e *gentry, schema any, applied []string, wellT
 						toks = append(toks, "nil-of-R")
 					}
 					for k, in := range ins {
-						obs := callAll(schema, in, renderGen)
-						o.Emit(fmt.Sprintf("c09 gen %s %s | %s #%s", e.name, strings.Join(applied, " "), toks[k], e.name), obs)
+						emitCase(o, "gen", e.name, applied, base, schema, in, toks[k])
 						o.Count("gen:" + e.name)
 						o.Count("gotype:" + gt)
 						if strings.HasSuffix(applied[0], "+ow") {
 							o.Count("gen-overwrite:" + e.name)
 						}
+					}
+				}
+				// complex-path types (cpx lines, predicted by the Lean model): the boundary inputs the engine tells apart — a
+				// pointer to each sample, the typed nil pointer, untyped nil (the nil of R came above)
+				if _, isCpx := cpxFamily[gt]; isCpx && wellTyped {
+					eT := want
+					if eT.Kind() == reflect.Pointer {
+						eT = eT.Elem()
+					}
+					lbl := func(t reflect.Type) string {
+						if t == want || want.Kind() == reflect.Interface {
+							return "gen"
+						}
+						return "ill"
+					}
+					if eT.Kind() != reflect.Interface {
+						pT := reflect.PointerTo(eT)
+						if pT != want {
+							for _, x := range e.ins {
+								if v, ok := conv(x, eT); ok {
+									p := reflect.New(eT)
+									p.Elem().Set(v)
+									emitCase(o, lbl(pT), e.name, applied, base, schema, anyOf(p.Interface()), "&"+canon(x))
+									o.Count("gotype:" + gt)
+								}
+							}
+							emitCase(o, lbl(pT), e.name, applied, base, schema, anyOf(reflect.Zero(pT).Interface()), "nilptr:"+strings.ReplaceAll(pT.String(), " ", ""))
+						}
+					}
+					if want.Kind() != reflect.Interface {
+						emitCase(o, "ill", e.name, applied, base, schema, anyOf(nil), "nil")
 					}
 				}
 				// ill-typed inputs: ParseAny = Parse, MustParse / MustParseAny panic with that error
@@ -274,12 +307,11 @@ func runOne(o *hx.Out, r *hx.Rng, e *gentry, schema any, applied []string, wellT
 					if reflect.TypeOf(x) == want {
 						continue
 					}
-					obs := callAll(schema, in, renderGen)
 					if want.Kind() == reflect.Interface {
 						// R = any: every value is of the strict static type
-						o.Emit(fmt.Sprintf("c09 gen %s %s | %s #%s", e.name, strings.Join(applied, " "), canon(x), e.name), obs)
+						emitCase(o, "gen", e.name, applied, base, schema, in, canon(x))
 					} else {
-						o.Emit(fmt.Sprintf("c09 ill %s %s | %s:%s #%s", e.name, strings.Join(applied, " "), strings.ReplaceAll(fmt.Sprintf("%T", x), " ", ""), canon(x), e.name), obs)
+						emitCase(o, "ill", e.name, applied, base, schema, in, strings.ReplaceAll(fmt.Sprintf("%T", x), " ", "")+":"+canon(x))
 					}
 					o.Count("ill:" + e.name)
 					o.Count("gotype:" + gt)
